@@ -115,7 +115,7 @@ def judge_case13(r, T):
     if lay_i != lay_m:
         T.mvi["disagree"] += 1
         T.corr.append(("layout", "case %d: stored layout differs: impl=%s model=%s" % (cid, lay_i, lay_m), {"case": r["line"], "impl": lay_i, "model": lay_m}))
-        return
+        # keep judging: the model-free oracle may turn the broken tie into a concrete failing query
     qs = c13_queries(c)
     answers = [x for x in ans[2:] if isinstance(x, list) and x[0] == "ans"]
     scans_m = [x for x in ans[2:] if isinstance(x, list) and x[0] == "sc"]
